@@ -2,6 +2,8 @@
 encoded event dictionaries and records what the library does with them.
 
 stdin:  {"cases": [case, ...]}  (see harness/c03.py for the case format), or {"list": true}
+        a case may carry "changes": [[after_tick, [[default name, value], ...]], ...]: assignments to timeline.defaults.<name>
+        performed between two ticks of the running track (after_tick -1 = after schedule(), before the first tick)
 stdout: {"results": [{"event": {"raise": cls} | {"view": enc}, "trace": [[tick, method, [enc args]], ...],
                       "raise": cls | null, "raise_tick": int | null, "pulls": {...}}, ...]}
 
@@ -227,6 +229,17 @@ def main():
                         track = tl.schedule(Seq([world.dec({"d": ev}) for ev in case["events"]]))
                 if case.get("muted"):
                     track.mute()
+                # "changes": the timeline is re-configured while the track is running: [after_tick, [[name, value], ...]]
+                # = "timeline.defaults.<name> = value" performed between tick after_tick and the next one
+                # (after_tick -1: after schedule(), before the first tick)
+                changes = case.get("changes") or []
+                def reconfigure(after_tick):
+                    for at, kvs in changes:
+                        if at == after_tick:
+                            for name, v in kvs:
+                                setattr(tl.defaults, name, world.dec(v))
+                t = -1
+                reconfigure(-1)
                 for t in range(case["nticks"]):
                     n0 = len(dev.calls)
                     try:
@@ -234,8 +247,10 @@ def main():
                     finally:
                         for m, args in dev.calls[n0:]:
                             trace.append([t, m, [world.enc(a) for a in args]])
+                    reconfigure(t)
             except Exception as ex:
                 raised, raise_tick = type(ex).__name__, len(trace) and t
+                res["raise_at"] = t          # the tick whose tick() call let the exception escape (-1: before the first tick)
             res["trace"] = trace
             res["raise"] = raised
             res["pulls"] = {"defaults": [p.pulls[0] for p in world.patterns[:n_def_patterns]],
